@@ -239,6 +239,17 @@ def r3(ctx):
         data = f.params[1]
         its = [U(inline(a, fenv)).replace(" ", "") for a in gen.iter.args] if isinstance(gen.iter, ast.Call) and call_name(gen.iter) == "zip" else []
         role = dict(zip(tn, its))
+        # nested targets / a row of the id matrix destructured in the target: zip(sample_ids, treatment_ids[(, :2)]) with (c, (d1, d2))
+        if isinstance(gen.target, ast.Tuple) and any(isinstance(t, ast.Tuple) for t in gen.target.elts) and len(its) == len(gen.target.elts):
+            role = {}
+            for t, src in zip(gen.target.elts, its):
+                if isinstance(t, ast.Name):
+                    role[t.id] = src
+                elif isinstance(t, ast.Tuple) and all(isinstance(x, ast.Name) for x in t.elts) and src in (f"{data}.treatment_ids", f"{data}.treatment_ids[:,:{len(t.elts)}]",
+                                                                                                          f"{data}.treatment_ids[:,0:{len(t.elts)}]"):
+                    for j, x in enumerate(t.elts):
+                        role[x.id] = f"{data}.treatment_ids[:,{j}]"
+            tn = list(role)
         cenv = {k: v for k, v in fenv.items() if k not in tn}
         l, r = U(inline(lc[0].elt.left, cenv)).replace(" ", ""), U(inline(lc[0].elt.right, cenv)).replace(" ", "")
         c = [k for k, v in role.items() if v == f"{data}.sample_ids"]
@@ -408,7 +419,7 @@ def r6(ctx):
         if fn.endswith("_all") and fn != "predict_variance_all":
             st = [n for n in walk_own(loop) if isinstance(n, ast.Assign) and isinstance(n.targets[0], ast.Subscript)]
             tgt0 = st[0].targets[0] if len(st) == 1 else None
-            if tgt0 is not None and isinstance(tgt0.value, ast.Name) and isinstance(lenv.get(tgt0.value.id), ast.Subscript) and U(tgt0.slice) == ":":
+            if tgt0 is not None and isinstance(tgt0.value, ast.Name) and isinstance(lenv.get(tgt0.value.id), ast.Subscript) and U(tgt0.slice) in (":", "...", "Ellipsis"):
                 tgt0 = lenv[tgt0.value.id]       # row = result[i, :]; row[:] = ...   writes through the view
             sl0 = tgt0.slice if tgt0 is not None else None
             first = sl0.elts[0] if isinstance(sl0, ast.Tuple) else sl0
